@@ -109,50 +109,6 @@ Proof.
   - destruct (Z.eqb_spec r (P - 1)); nia.
 Qed.
 
-(* the share: every rank but the last gets exactly k rows, k the greatest integer <= ceil(N/P)
-   with k (P-1) <= N; the last rank gets the remaining N - (P-1) k >= 0 rows *)
-Lemma while_dec_max (N P : Z) (c : Z -> bool) (b : Z -> option Z) :
-  0 <= N ->
-  (forall k, c k = (k * (P - 1) >? N)) -> (forall k, b k = Some (k - 1)) ->
-  forall (fuel : nat) (k0 : Z), 0 <= k0 -> (Z.to_nat k0 < fuel)%nat ->
-  exists k, while_fuel fuel c b k0 = Some k /\ 0 <= k <= k0 /\ k * (P - 1) <= N /\
-            (k = k0 \/ N < (k + 1) * (P - 1)).
-Proof.
-  intros HN Hc Hb fuel. induction fuel as [|fuel IH]; intros k0 Hk Hf; [lia|].
-  cbn [while_fuel]. rewrite Hc. destruct (Z.gtb_spec (k0 * (P - 1)) N) as [Hgt|Hle].
-  - rewrite Hb. cbn [bind].
-    assert (k0 <> 0) by (intros ->; lia).
-    destruct (IH (k0 - 1)) as (k & E & Hr & Hx & Hm); [lia|lia|].
-    exists k. repeat split; try assumption; try lia.
-  - exists k0. repeat split; try lia.
-Qed.
-
-Theorem get_functions_share {A} (l : list A) (P : Z) :
-  1 <= P ->
-  let N := py_len l in
-  exists k, 0 <= k <= - ((- N) / P) /\ k * (P - 1) <= N /\
-    (k = - ((- N) / P) \/ N < (k + 1) * (P - 1)) /\
-    (forall r, 0 <= r < P - 1 -> gf_end l r P - gf_start l r P = k) /\
-    gf_end l (P - 1) P - gf_start l (P - 1) P = N - (P - 1) * k.
-Proof.
-  intros HP N. assert (HN : 0 <= N) by (unfold N, py_len; lia).
-  destruct (ceil_bounds N P HN HP) as [Hc0 Hc1].
-  destruct (while_dec_max N P (fun nLs => nLs * (P - 1) >? N) (fun nLs => let nLs := nLs - 1 in Some nLs)
-              HN (fun _ => eq_refl) (fun _ => eq_refl) (Datatypes.S (length l)) (- ((- N) / P)) Hc0)
-    as (k & E & Hk & Hx & Hm).
-  { assert (HNl : N = Z.of_nat (length l)) by reflexivity. lia. }
-  exists k. split; [lia|]. split; [exact Hx|]. split; [exact Hm|].
-  assert (Hs : forall r, get_functions_slice l r P =
-      Some (py_slice l (r * k) (if r =? P - 1 then N else (r + 1) * k), r * k, if r =? P - 1 then N else (r + 1) * k)).
-  { intros r. unfold get_functions_slice, py_ceil_fdiv. fold N.
-    destruct (Z.eqb_spec P 0); [lia|]. cbn [bind].
-    cbv zeta in E |- *. rewrite E. cbn [bind].
-    destruct (r =? P - 1); reflexivity. }
-  unfold gf_start, gf_end. split.
-  - intros r Hr. rewrite Hs. destruct (Z.eqb_spec r (P - 1)); lia.
-  - rewrite Hs, Z.eqb_refl. lia.
-Qed.
-
 (* ------------------------------------------------------------------ *)
 (* split_idx                                                           *)
 
@@ -267,31 +223,6 @@ Proof.
   - unfold si_bounds, div_point. cbn. lia.
   - intros r Hr. unfold si_bounds, div_point. nia.
   - unfold si_bounds, div_point. rewrite zrange_length. f_equal. nia.
-Qed.
-
-(* load balance of split_idx: rank r owns N/P indices, plus one if r < N mod P;
-   so two ranks never differ by more than one index and no rank exceeds ceil(N/P). *)
-Lemma split_idx_balanced (N P r : Z) :
-  0 <= N -> 1 <= P -> 0 <= r < P ->
-  Z.of_nat (length (si_range (split_idx N r P))) = N / P + (if r <? N mod P then 1 else 0).
-Proof.
-  intros HN HP Hr. rewrite split_idx_spec by assumption.
-  assert (He : 0 <= N mod P < P) by (apply Z.mod_pos_bound; lia).
-  assert (Hq : 0 <= N / P) by (apply Z.div_pos; lia).
-  set (q := N / P) in *. set (e := N mod P) in *.
-  assert (Hd : div_point q e (r + 1) - div_point q e r = q + (if r <? e then 1 else 0)).
-  { unfold div_point. destruct (Z.ltb_spec r e); lia. }
-  destruct (Z.geb_spec (div_point q e r) (div_point q e (r + 1))) as [Hge|Hlt].
-  - cbn [si_range length]. destruct (Z.ltb_spec r e); lia.
-  - cbn [si_range]. unfold zinterval. rewrite map_length, seq_length. lia.
-Qed.
-
-Corollary split_idx_balance_pair (N P r s : Z) :
-  0 <= N -> 1 <= P -> 0 <= r < P -> 0 <= s < P ->
-  Z.abs (Z.of_nat (length (si_range (split_idx N r P))) - Z.of_nat (length (si_range (split_idx N s P)))) <= 1.
-Proof.
-  intros HN HP Hr Hs. rewrite !split_idx_balanced by assumption.
-  destruct (r <? N mod P), (s <? N mod P); lia.
 Qed.
 
 (* every index is owned by a rank, and by no second rank *)
